@@ -21,8 +21,9 @@ Operations of a history (JSON lists):
   ["f"]             finish the oldest open iterator (all are finished at the end of a history)
   ["drop", spec]    forget configuration `spec` + gc.collect()     ["glob", spec]  make it the global one
                     (spec "-" = set_global_colors_config(None))
-  ["hp"]            console help through an HCommand created at the start of the history (observed,
-                    never alarmed on: such an object is documented to capture its palette)
+  ["fmt", obj, F]   change the record limits of table obj (columns kept), render nothing
+  ["hnew"] / ["hp"] create a long-lived HCommand / console help through it (judged against the palette
+                    it captured at creation; how often that differs from the global one is counted)
 how: "g" global configuration | "cX" colors_conf=X | "nc" no_color=True | "pc" palette class |
      "pcX" palette class + colors_conf=X | "po" palette object (made from the global configuration in
      force at its first use) | "ponc" palette object + no_color=True
@@ -108,8 +109,12 @@ class World:
         R._hdoc_target()
         self.ids = AdversarialId()
         self.palette_classes = _all_palette_classes()
-        self.shared_ghist = {}
-        R.build_object("gh", self.shared_ghist)            # the report data is immutable: built once
+        warm = {}
+        for name in R.OBJECT_KINDS:                        # warm up lazy imports before freezing
+            if name == "tbl2":
+                warm["tbl"] = R.build_object("tbl", warm)
+            R.build_object(name, warm)
+        del warm
         gc.disable()
         if not World._frozen:
             gc.collect()
@@ -121,7 +126,8 @@ class World:
     def reset(self):
         color = self.color
         self.objs = {}
-        self.shared = {"ghist": self.shared_ghist["ghist"]}
+        self.shared = {}
+        self.fmt_state = {}
         self.slots = {}
         self.palobjs = {}
         self.palobj_spec = {}
@@ -157,6 +163,9 @@ class World:
     def _obj(self, name):
         p = self.objs.get(name)
         if p is None:
+            if name == "tbl2":                              # PPTable(records, fmt_obj=tbl.fmt), made now
+                self.shared["tbl"] = self._obj("tbl")
+                self.fmt_state["tbl2"] = self.fmt_state.get("tbl")
             p = self.objs[name] = R.build_object(name, self.shared)
         return p
 
@@ -218,13 +227,20 @@ class World:
             if self.hcmd is None:
                 raise HistoryDisabled(op)
             text = self.hcmd[0]._make_help_text(p.obj)
-            return [("hd", (self.hcmd[1], "std"), text, "hp")]
+            return [("hd", (None, self.hcmd[1], "std"), text, "hp")]
         if kind == "hnew":
             self.hcmd = (self.hdoc.HCommand(self.hdoc.HCommand._LEVEL_HH), self.global_spec)
+            return []
+        if kind == "fmt":                                   # change the format of a table, render nothing
+            p = self._obj(op[1])
+            p.obj.fmt = R.FMT_OPS[op[2]]
+            self.fmt_state[op[1]] = op[2]
+            self.events.add("fmt-change")
             return []
         name, how = op[1], op[2]
         p = self._obj(name)
         kw, key = self._how(p, how)
+        key = (self.fmt_state.get(name),) + key
         if kind == "r":
             return [(name, key, R.text_of(p.result(**kw)), "whole")]
         if name not in R.ITERABLE:
@@ -284,7 +300,7 @@ class World:
         for tag, (name, how) in (("a", a), ("b", b)):
             p = self._obj(name)
             kw, key = self._how(p, how)
-            ents[tag] = [name, key, iter(p.result(**kw)), []]
+            ents[tag] = [name, (self.fmt_state.get(name),) + key, iter(p.result(**kw)), []]
         for tag in order:
             ent = ents[tag]
             ent[3].append(R.line_text(next(ent[2])))
